@@ -40,7 +40,7 @@ pub proof fn lemma_clean_from_checks(p: Path)
 pub mod builtins {
     use super::*;
     verus! {
-    //@@ fn crates/rip-tools/src/builtins/mod.rs resolve_path
+    //@@ fn crates/rip-tools/src/builtins/mod.rs resolve_path name=builtins::resolve_path
     //@@ sig
         ensures
             ret matches Ok(p) ==> within(p, *root),                                   // [builtins.resolve_path.within_root]
@@ -57,7 +57,7 @@ pub mod builtins {
 pub mod tasks_logs {
     use super::*;
     verus! {
-    //@@ fn crates/ripd/src/tasks/logs.rs resolve_path
+    //@@ fn crates/ripd/src/tasks/logs.rs resolve_path name=tasks_logs::resolve_path
     //@@ alias std::path::Component Component
     //@@ sig
         ensures
